@@ -1,7 +1,7 @@
 """C17 correspondence: DBusProperty / Properties.Get / Set / GetAll of the real txdbus.objects against
 Model/PropsModel.v (model, pre-repair legacy model) and Spec/PropsSpec.v (oracle).
 
-A case is [shape, classes, history, strict]:
+A case is [shape, classes, history, strict] or [shape, classes, history, strict, others]:
   shape   = 0: single-inheritance chain (class k derives from class k+1, the last from DBusObject)
             1: diamond of four classes (0 derives from 1 and 2, both derive from 3)
   classes = [[ifaces, dprops], ...] in MRO order, most derived first
@@ -18,6 +18,15 @@ A case is [shape, classes, history, strict]:
             [6, tuple] [7, [[k, v], ...]] [9, type code, val] (marshal.Byte ... ObjectPath instance) [10] None
   strict  = 1: every assigned / Set value conforms to the declared type of its property (the typed
             clauses of the property are checked); 0: the malformed-value stream.
+  others  = (optional) [[j, history, after], ...]: FURTHER OBJECTS of classes of the same hierarchy.  Entry
+            [j, history, after] is an instance of class j (j = 0: a second instance of the most derived class;
+            j > 0: an instance of an ancestor class), living on two connections of its own, whose whole history
+            runs before the main object (the instance of class 0 that `history` drives) is even created
+            (after = 0), or after the main object's history has ended (after = 1).  Every object is compared
+            with the model and judged by the oracle on its own, against the declarations of ITS class (the part
+            of `classes` in its MRO): txdbus keeps DBusProperty descriptors and the interface caches on the
+            classes, which the objects share; the property speaks of every declared property of every object,
+            so what one object's use leaves behind on the classes must not show in another's answers.
 The classes are built with type() against the tree under test; the object is exported on real
 DBusObjectHandlers (two connections) each of whose connection records the bytes of every message; remote calls are raw call bytes read
 by message.parseMessage; replies and signals are decoded from their bytes by harness/c17_wire.py."""
@@ -27,8 +36,14 @@ from harness import common
 from harness import c17_wire as wire
 
 ASSUMPTIONS = [
-    'one object per class hierarchy: DBusProperty descriptors and the per-class caches are class-level state, so two '
-    'objects of different subclasses sharing a base class can influence each other; not modelled, not generated',
+    'several objects of one class hierarchy (instances of an ancestor class used before the first instance of the derived '
+    'class exists, or after it; a second instance of the same class) are generated as independent objects: the model has no '
+    'class-level state, each object is compared and judged against the declarations in the MRO of its own class. Such '
+    'families are generated only where every class that is instantiated is closed (each DBusProperty of a class in its '
+    'MRO names a property of an interface declared in that MRO, and resolves there to the same interface as in the full '
+    'hierarchy): a base class carrying a descriptor for an interface that only a subclass declares cannot serve it on '
+    'its own, and which object first touches it then decides how txdbus resolves it (not modelled, not generated). '
+    'Interleaved use of two objects of one hierarchy is not generated',
     'declarations are well formed for the theorems and the oracle (each interface name declared once in the hierarchy, '
     'distinct property names within an interface, each DBusProperty names an existing property, no attribute name '
     'reused in the hierarchy); hierarchies with a repeated interface name or a shadowed attribute are generated at a '
@@ -245,8 +260,42 @@ def dp_when(d):
     return int(d[3]) if len(d) > 3 else 0
 
 
-def build(case, E):
-    """-> (object, descriptors to attach after the first operation)"""
+def others_of(case):
+    return [[int(o[0]), [norm_op(x) for x in o[1]], int(o[2]) if len(o) > 2 else 0] for o in (case[4] if len(case) > 4 else [])]
+
+
+def mro_idx(shape, n, j):
+    """indices (into `classes`) of the classes in the MRO of class j"""
+    if shape == 1 and n == 4:
+        return {0: [0, 1, 2, 3], 1: [1, 3], 2: [2, 3], 3: [3]}[j]
+    return list(range(j, n))
+
+
+def sub_case(case, j):
+    """the case an object of class j is on its own: the declarations in its MRO (always a chain), its own history"""
+    idxs = mro_idx(case[0], len(case[1]), j)
+    return [0, [case[1][k] for k in idxs], [], case[3]]
+
+
+def resolve(classes, idxs, d):
+    """interface name a dprop resolves to among the classes idxs (getInterfaces() order), None if it does not"""
+    for k in idxs:
+        for iname, props in classes[k][0]:
+            if (d[2] is None or s(iname) == s(d[2])) and any(s(q[0]) == s(d[1]) for q in props):
+                return s(iname)
+    return None
+
+
+def closed(case, j):
+    """class j can be used on its own and resolves its descriptors as the whole hierarchy does"""
+    n = len(case[1])
+    idxs, full = mro_idx(case[0], n, j), mro_idx(case[0], n, 0)
+    return all(resolve(case[1], idxs, d) is not None and resolve(case[1], idxs, d) == resolve(case[1], full, d)
+               for k in idxs for d in case[1][k][1])
+
+
+def build_classes(case, E):
+    """-> (classes most derived first, attach(when))"""
     shape, classes = case[0], case[1]
     objects, interface = E['objects'], E['interface']
     emap = {0: False, 1: True, 2: 'invalidates'}
@@ -276,14 +325,11 @@ def build(case, E):
                 if dp_when(d) == when:
                     setattr(built[k], s(d[0]), objects.DBusProperty(s(d[1]), s(d[2]) if d[2] is not None else None))
 
-    attach(1)
-    cls = built[0]
-    mro = [c for c in cls.__mro__ if c not in (objects.DBusObject, object)]
-    if mro != built:
-        raise RuntimeError('MRO differs from the case order')
-    obj = cls(PATH)
-    attach(2)
-    return obj, (lambda: attach(3))
+    for j in range(n):
+        mro = [c for c in built[j].__mro__ if c not in (objects.DBusObject, object)]
+        if mro != [built[k] for k in mro_idx(shape, n, j)]:
+            raise RuntimeError('MRO differs from the case order')
+    return built, attach
 
 
 def model_hier(case):
@@ -373,14 +419,42 @@ def op_conn(op):
 
 
 def run_impl(case, E):
-    """-> (observations per operation, history as the model must see it)"""
-    obj, attach_late = build(case, E)
+    """-> [(class index, case of that object, observations per operation, history as the model must see it), ...]
+    one entry per object, in the order the objects live: others with after = 0, the main object, others with after = 1"""
+    built, attach = build_classes(case, E)
+    others = others_of(case)
+    if others:
+        if any(dp_when(d) for c in case[1] for d in c[1]):
+            raise RuntimeError('a case with several objects attaches every descriptor in the class body')
+        for o in others:
+            if not closed(case, o[0]):
+                raise RuntimeError('class %d of the case is instantiated but not closed: %r' % (o[0], case[1]))
+    out = []
+    for j, hist, after in others:
+        if not after:
+            sc = sub_case(case, j)
+            sc[2] = hist
+            out.append((j, sc) + run_object(built[j](PATH), hist, E, None))
+    attach(1)
+    obj = built[0](PATH)
+    attach(2)
+    out.append((0, case[:4]) + run_object(obj, case[2], E, lambda: attach(3)))
+    for j, hist, after in others:
+        if after:
+            sc = sub_case(case, j)
+            sc[2] = hist
+            out.append((j, sc) + run_object(built[j](PATH), hist, E, None))
+    return out
+
+
+def run_object(obj, history, E, attach_late):
+    """one object on two connections of its own -> (observations per operation, history as the model must see it)"""
     conns = {1: E['Conn'](), 2: E['Conn']()}
     handlers = {c: E['objects'].DBusObjectHandler(conns[c]) for c in conns}
     message = E['message']
     out, mhist = [], []
-    late_done = False
-    for idx, op in enumerate(case[2]):
+    late_done = attach_late is None
+    for idx, op in enumerate(history):
         k = op[0]
         c = op_conn(op)
         n0 = {x: len(conns[x].sent) for x in conns}
@@ -623,54 +697,87 @@ def oracle(case, idx, op, impl, spec, res, track):
         res.violate(case, '%s: a read emitted %r' % (where, pc), 'signal:emitted-by-read')
 
 
+class OfFamily(object):
+    """violations of one object of a case with several objects: reported with the whole case (which is what replays)"""
+
+    def __init__(self, inner, full, prefix):
+        self.inner, self.full, self.prefix = inner, full, prefix
+
+    def violate(self, case, why, signature):
+        self.inner.violate(self.full, self.prefix + why, signature)
+
+
+def norm_case(c):
+    out = [int(c[0]), c[1], [norm_op(o) for o in c[2]], int(c[3])]
+    if len(c) > 4 and c[4]:
+        out.append([[int(o[0]), [norm_op(x) for x in o[1]], int(o[2]) if len(o) > 2 else 0] for o in c[4]])
+    return out
+
+
 def evaluate(ctx, cases, res):
     E = env()
-    cases = [[int(c[0]), c[1], [norm_op(o) for o in c[2]], int(c[3])] for c in cases]
+    cases = [norm_case(c) for c in cases]
     impl_all = []
     lines = []
     for c in cases:
-        io, mhist = run_impl(c, E)
-        impl_all.append(io)
-        lines.append('(17 %s %s)' % (common.dump(model_hier(c)), common.dump(mhist)))
+        objs = run_impl(c, E)
+        impl_all.append(objs)
+        for j, sc, io, mhist in objs:
+            lines.append('(17 %s %s)' % (common.dump(model_hier(sc)), common.dump(mhist)))
     outs = common.run_model(lines)
     vres = PerSignature(res)
     nops = 0
     stats = res.extra.setdefault('c17', {'ops': 0, 'wf_cases': 0, 'non_wf_cases': 0, 'legacy_differs_steps': 0,
                                           'impl_equals_legacy_not_current': 0, 'signals_seen': 0, 'error_replies': 0,
                                           'value_replies': 0, 'getall_replies': 0})
-    for case, io, mo in zip(cases, impl_all, outs):
-        if mo == [-1]:
-            raise RuntimeError('model rejected input %r' % (case,))
-        wf, compiled, steps = mo
-        if not compiled:
-            raise RuntimeError('generator produced a hierarchy whose DBusProperty declarations do not resolve: %r' % (case[1],))
-        res.traces += 1
+    pos = 0
+    for case, objs in zip(cases, impl_all):
+        family = len(objs) > 1
         res.count(case, nontrivial=any(o[0] in (2, 3, 4) for o in case[2]))
-        stats['wf_cases' if wf else 'non_wf_cases'] += 1
-        stats['unexports'] = stats.get('unexports', 0) + sum(1 for o in case[2] if o[0] == 5)
-        stats['ops_on_connection_2'] = stats.get('ops_on_connection_2', 0) + sum(1 for o in case[2] if op_conn(o) == 2)
-        for w in (1, 2, 3):
-            kk = 'descriptors_attached_when_%d' % w
-            stats[kk] = stats.get(kk, 0) + sum(1 for c in case[1] for d in c[1] if dp_when(d) == w)
-        track = {}
-        for idx, (op, im, st) in enumerate(zip(case[2], io, steps)):
-            nops += 1
-            cur, leg, spec = m_out(st[0]), m_out(st[1]), st[2]
-            if cur != leg:
-                stats['legacy_differs_steps'] += 1
-            stats['signals_seen'] += len(im[1])
-            if im[0] == [5]:
-                stats['error_replies'] += 1
-            elif im[0] and im[0][0] == 2:
-                stats['value_replies'] += 1
-            elif im[0] and im[0][0] == 3:
-                stats['getall_replies'] += 1
-            if im != cur:
-                if im == leg:
-                    stats['impl_equals_legacy_not_current'] += 1
-                res.disagree(case, ['step', idx, im], ['step', idx, cur])
-            if wf:
-                oracle(case, idx, op, im, spec, vres, track)
+        if family:
+            stats['cases_with_several_objects'] = stats.get('cases_with_several_objects', 0) + 1
+            first = objs[0][0]
+            kk = 'first_object_is_of_an_ancestor_class' if first else 'first_object_is_of_the_most_derived_class'
+            stats[kk] = stats.get(kk, 0) + 1
+        for nth, (j, sc, io, mhist) in enumerate(objs):
+            mo = outs[pos]
+            pos += 1
+            if mo == [-1]:
+                raise RuntimeError('model rejected input %r' % (case,))
+            wf, compiled, steps = mo
+            if not compiled:
+                raise RuntimeError('generator produced a hierarchy whose DBusProperty declarations do not resolve: %r' % (sc[1],))
+            res.traces += 1
+            stats['wf_cases' if wf else 'non_wf_cases'] += 1
+            stats['unexports'] = stats.get('unexports', 0) + sum(1 for o in sc[2] if o[0] == 5)
+            stats['ops_on_connection_2'] = stats.get('ops_on_connection_2', 0) + sum(1 for o in sc[2] if op_conn(o) == 2)
+            for w in (1, 2, 3):
+                kk = 'descriptors_attached_when_%d' % w
+                stats[kk] = stats.get(kk, 0) + sum(1 for c in sc[1] for d in c[1] if dp_when(d) == w)
+            who = ''
+            ores = vres
+            if family:
+                who = 'object %d of %d (an instance of class %d%s): ' % (nth + 1, len(objs), j, '' if j else ', the most derived')
+                ores = OfFamily(vres, case, who)
+            track = {}
+            for idx, (op, im, st) in enumerate(zip(sc[2], io, steps)):
+                nops += 1
+                cur, leg, spec = m_out(st[0]), m_out(st[1]), st[2]
+                if cur != leg:
+                    stats['legacy_differs_steps'] += 1
+                stats['signals_seen'] += len(im[1])
+                if im[0] == [5]:
+                    stats['error_replies'] += 1
+                elif im[0] and im[0][0] == 2:
+                    stats['value_replies'] += 1
+                elif im[0] and im[0][0] == 3:
+                    stats['getall_replies'] += 1
+                if im != cur:
+                    if im == leg:
+                        stats['impl_equals_legacy_not_current'] += 1
+                    res.disagree(case, [who + 'step', idx, im], ['step', idx, cur])
+                if wf:
+                    oracle(sc, idx, op, im, spec, ores, track)
     stats['ops'] += nops
     res.evaluations += nops - len(cases)
 
@@ -923,6 +1030,86 @@ def gen_random(ctx, count):
         yield [shape, classes, gen_history(rng, classes, strict, rng.randint(4, 12)), strict]
 
 
+def make_closed(shape, classes, j):
+    """move to the most derived class every descriptor that class j could not resolve on its own as the whole
+    hierarchy does (class 0 sees every interface; where a descriptor sits does not change what it names)"""
+    n = len(classes)
+    case = [shape, classes]
+    idxs, full = mro_idx(shape, n, j), mro_idx(shape, n, 0)
+    for k in idxs:
+        if k == 0:
+            continue
+        for d in list(classes[k][1]):
+            r = resolve(classes, idxs, d)
+            if r is None or r != resolve(classes, full, d):
+                classes[k][1].remove(d)
+                classes[0][1].append(d)
+    return closed(case, j)
+
+
+def gen_family(ctx, count):
+    """several objects of ONE hierarchy: instances of ancestor classes (and second instances of the most derived
+    class) whose histories run before the main object exists, or after its history"""
+    rng = ctx.rng
+    made = 0
+    while made < count:
+        shape, classes = gen_hier(rng, True)
+        n = len(classes)
+        if n < 2:
+            continue
+        for c in classes:
+            c[1][:] = [d[:3] + [0] for d in c[1] if dp_when(d) != 3]
+        strict = 1 if rng.random() < 0.8 else 0
+        k = rng.choice([1, 1, 1, 2, 3])
+        js = [rng.randrange(1, n) if rng.random() < 0.85 else 0 for _ in range(k)]
+        if not all(make_closed(shape, classes, j) for j in js) or not all(closed([shape, classes], j) for j in js):
+            continue
+        # mostly: every other object first (the classes are first used through an ancestor's instance)
+        r = rng.random()
+        others = []
+        for j in js:
+            sub = [classes[i] for i in mro_idx(shape, n, j)]
+            after = 0 if r < 0.6 else (1 if r < 0.75 else rng.randrange(2))
+            others.append([j, gen_history(rng, sub, strict, rng.randint(1, 6)), after])
+        yield [shape, classes, gen_history(rng, classes, strict, rng.randint(4, 10)), strict, others]
+        made += 1
+
+
+def gen_family_fixed():
+    """two- and three-level hierarchies in which every level declares an interface and binds its properties; an
+    instance of each ancestor class (or a second instance of the same class) used first / used last"""
+    u = lambda z: [9, ord('u'), [0, z]]
+    base = [[['org.ex.Base', [['Name', 's', 1, 1, 0]]]], [['name', 'Name', None, 0]]]
+    mid = [[['org.ex.Mid', [['Count', 'u', 1, 1, 1], ['Pin', 'i', 0, 1, 0]]]], [['count', 'Count', 'org.ex.Mid', 0], ['pin', 'Pin', None, 0]]]
+    ext = [[['org.ex.Ext', [['Level', 'u', 1, 1, 1], ['Quiet', 'n', 1, 0, 0], ['Secret', 's', 0, 1, 0]]]],
+           [['level', 'Level', None, 0], ['quiet', 'Quiet', 'org.ex.Ext', 0], ['secret', 'Secret', None, 0]]]
+    h_base = [[0, 'name', [3, b'base']], [1, 1], [2, 'org.ex.Base', 'Name', 1], [4, 'org.ex.Base', 1]]
+    h_mid = [[0, 'name', [3, b'mid']], [0, 'count', [0, 1]], [1, 1], [0, 'count', [0, 2]], [2, 'org.ex.Mid', 'Count', 1],
+             [4, 'org.ex.Mid', 1], [3, 'org.ex.Mid', 'Pin', [0, 4], 1]]
+    h_ext = [[0, 'name', [3, b'ext']], [0, 'quiet', [0, 0]], [0, 'secret', [3, b'']], [0, 'level', [0, 0]], [1, 1],
+             [0, 'name', [3, b'ext2']], [0, 'quiet', [0, -3]], [0, 'secret', [3, b'hush']], [0, 'level', [0, 5]],
+             [2, 'org.ex.Ext', 'Level', 1], [2, 'org.ex.Ext', 'Quiet', 1], [3, 'org.ex.Ext', 'Level', u(9), 1],
+             [2, 'org.ex.Ext', 'Level', 1], [3, 'org.ex.Ext', 'Quiet', [9, ord('n'), [0, 1]], 1], [2, 'org.ex.Ext', 'Secret', 1],
+             [3, 'org.ex.Ext', 'Secret', [3, b'new'], 1], [4, 'org.ex.Ext', 1], [4, 'org.ex.Base', 1], [2, 'org.ex.Base', 'Name', 1]]
+    h_ext3 = h_ext + [[2, 'org.ex.Mid', 'Count', 1], [0, 'count', [0, 7]], [4, 'org.ex.Mid', 1]]
+    for after in (0, 1):
+        yield [0, [ext, base], h_ext, 1, [[1, h_base, after]]]
+        yield [0, [ext, base], h_ext, 1, [[0, h_ext[:9], after]]]
+        yield [0, [ext, mid, base], h_ext3, 1, [[2, h_base, after]]]
+        yield [0, [ext, mid, base], h_ext3, 1, [[1, h_mid, after]]]
+        yield [0, [ext, mid, base], h_ext3, 1, [[2, h_base, after], [1, h_mid, after]]]
+        yield [0, [ext, mid, base], h_ext3, 1, [[1, h_mid, after], [2, h_base, 1 - after]]]
+    # diamond: each side class used on its own first
+    left = [[['org.ex.L', [['P', 'u', 1, 1, 1]]]], [['lp', 'P', 'org.ex.L', 0]]]
+    right = [[['org.ex.R', [['P', 's', 1, 1, 1]]]], [['rp', 'P', 'org.ex.R', 0]]]
+    h_d = [[0, 'name', [3, b'd']], [0, 'lp', [0, 1]], [0, 'rp', [3, b'r']], [0, 'level', [0, 2]], [1, 1], [0, 'lp', [0, 3]],
+           [2, 'org.ex.L', 'P', 1], [2, 'org.ex.R', 'P', 1], [2, 'org.ex.Ext', 'Level', 1], [4, 'org.ex.Ext', 1], [4, 'org.ex.L', 1],
+           [3, 'org.ex.R', 'P', [3, b'x'], 1], [2, 'org.ex.R', 'P', 1]]
+    for js in ([1], [2], [3], [1, 2], [2, 1, 3]):
+        hs = {1: [[0, 'lp', [0, 9]], [1, 1], [2, 'org.ex.L', 'P', 1]], 2: [[0, 'rp', [3, b'q']], [1, 1], [4, 'org.ex.R', 1]], 3: h_base}
+        yield [1, [ext, left, right, base], h_d, 1, [[j, hs[j], 0] for j in js]]
+
+
 def run(ctx, res):
     n = ctx.n(1000, 20000)
     res.rule = ('(a) exhaustive matrix: one property of each of the 12 basic types x (readable, writeable) in 4 combinations x '
@@ -936,15 +1123,26 @@ def run(ctx, res):
                 'first instance), 30%% of the histories export / unexport on two connections; (d) every order of export / '
                 'unexport on two connections up to %d events (%d cases), each event followed by a local assignment, a Set and a '
                 'Get on each connection, assignments of a silent and an invalidating property and a GetAll, plus the fixed '
-                'move-between-connections and generated-descriptor shapes. Every operation is one evaluation; a case is '
-                'non-trivial if it makes a remote call; distinct by hash' % (n, ctx.n(3, 4), sum(4 ** k for k in range(1, ctx.n(3, 4) + 1))))
+                'move-between-connections and generated-descriptor shapes; (e) SEVERAL OBJECTS OF ONE HIERARCHY: %d random '
+                'hierarchies of 2-4 classes (as in (c), every instantiated class closed) with 1-3 further objects - instances '
+                'of ancestor classes (85%%) or second instances of the most derived class - each with a history of its own on '
+                'connections of its own, run before the main object is created (60%%), after its history (15%%) or mixed, '
+                'plus 17 fixed two- / three-level and diamond families in both orders; every object is compared with the '
+                'model and judged against the declarations in the MRO of its own class. Every operation is one evaluation; a case is '
+                'non-trivial if it makes a remote call; distinct by hash' % (n, ctx.n(3, 4), sum(4 ** k for k in range(1, ctx.n(3, 4) + 1)),
+                                                                            ctx.n(300, 5000)))
     evaluate(ctx, list(gen_matrix(ctx.rng)), res)
     evaluate(ctx, list(gen_fixed()), res)
     evaluate(ctx, list(gen_handlers(ctx.n(3, 4))), res)
+    evaluate(ctx, list(gen_family_fixed()), res)
     chunk = 2000
     left = n
     while left > 0:
         evaluate(ctx, list(gen_random(ctx, min(chunk, left))), res)
+        left -= chunk
+    left = ctx.n(300, 5000)
+    while left > 0:
+        evaluate(ctx, list(gen_family(ctx, min(chunk, left))), res)
         left -= chunk
     res.exhaustive = False
     for c in list(gen_fixed())[:3]:
